@@ -9,8 +9,12 @@
  *   close|show|hide|raise|raisefront|lower|lowerback <id>
  *   geom <id> <t> <l> <n> <k>        set_geometry followed by the exposes the C01 proviso demands (old and new area)
  *   geomraw <id> <t> <l> <n> <k>     set_geometry alone
+ *                                    (both refuse id 0 with bad-op: the root window's geometry is outside the property's domain —
+ *                                    tickit_window.7: the root "occupies the entire terminal"; Props.C01.root_setGeometry_counterexample)
  *   expose <id> [<t> <l> <n> <k>]
- *   scroll <id> <d> <r> | scrollrect <id> <t> <l> <n> <k> <d> <r> <pen> | scrollch <id> <d> <r>
+ *   scroll <id> <d> <r> | scrollrect <id> <t> <l> <n> <k> <d> <r> <pen>
+ *   scrollch <id> <d> <r>            tickit_window_scroll_with_children, then the application's half: every child moved by (-d, -r)
+ *                                    with set_geometry, nothing exposed (tickit_window_scroll.3: "does not actually move the child windows")
  *   resize <lines> <cols> | scrollmode <a|p|r> | flush
  *   pen: pen=N (NULL) | pen=fg:bg:b with each field an integer or x (absent)
  *   instr: P | E:t:l:n:k | T:l:c:hex | C:l:c:cp | S:t:l:n:k | K | N:bg:b | X:d:r | L:t:l:n:k
